@@ -21,6 +21,7 @@ from checks.lvs_common import FNS, install_lark_cache, comp_name, Checker, compi
 
 PROPERTY = 'C12'
 DIGEST = bytes([1, 32]) + bytes(range(32))
+PARAMS_DIGEST = bytes([2, 32]) + bytes(range(32, 64))
 
 
 def cons_for(name, extra_pats, level):
@@ -28,9 +29,9 @@ def cons_for(name, extra_pats, level):
     pats = [e[1] for e in name if e[0] == 'pat']
     out = [[]]
     opts_menu = [[['lit', 'a']], [['lit', 'a'], ['lit', 'b']], [['fn', '$eq', [['lit', 'b']]]]]
-    for q in extra_pats:
+    for qi, q in enumerate(extra_pats):
         opts_menu.append([['pat', q]])
-        if level >= 1:
+        if level >= 1 or qi == 0:
             opts_menu.append([['fn', '$eq', [['pat', q]]]])
     seen = []
     for p in pats:
@@ -169,6 +170,20 @@ def check_schema(schema, tier, acc=None):
                 g4 = bool(ck.check(list(pn) + [DIGEST], list(kn) + [DIGEST]))
             except Exception as e:  # noqa
                 bad(f'check-raises-with-digest:{type(e).__name__}', f'{e!r}')
+                break
+            # a ParametersSha256Digest component (every signed Interest name ends in one) is an ordinary component for the schema
+            pq = list(pn) + [PARAMS_DIGEST]
+            try:
+                g5 = bool(ck.check(pq, list(kn)))
+                w5 = ref.check(pq, kn)
+                g6 = bool(ck.check(list(pn), list(kn) + [PARAMS_DIGEST]))
+                w6 = ref.check(pn, list(kn) + [PARAMS_DIGEST])
+            except Exception as e:  # noqa
+                bad(f'check-raises-with-params-digest:{type(e).__name__}', f'{e!r}')
+                break
+            if g5 != w5 or g6 != w6:
+                bad('params-digest-component-not-ordinary', f'check with a trailing params-sha256 component on /{"/".join(pt)} resp. /{"/".join(kt)}: '
+                                                            f'library {g5}/{g6}, schema text {w5}/{w6}')
                 break
             if g2 != got or g3 != got or g4 != got:
                 bad('digest-suffix-not-ignored', f'check(/{"/".join(pt)}, /{"/".join(kt)}) = {got} but {g2}/{g3}/{g4} with a trailing implicit digest '
